@@ -270,6 +270,36 @@ class RunTimeout(BaseException):
     cannot be seen by the reader-call budget."""
 
 
+DEBUG_LOG_ON = False
+
+
+def set_debug_logging(on: bool) -> None:
+    """Swarm-style configuration choice: one run in eight executes with the library's loggers enabled at DEBUG level (records
+    go to a null handler), the others with logging as an application that never configured it. Log calls that are guarded by
+    isEnabledFor() / evaluated lazily are code like any other; what a function returns may not depend on the log level."""
+    global DEBUG_LOG_ON
+    import logging
+    lg = logging.getLogger("dissect.cobaltstrike")
+    DEBUG_LOG_ON = on
+    if on:
+        logging.disable(logging.NOTSET)
+        lg.setLevel(logging.DEBUG)
+        lg.propagate = False
+        if not lg.handlers:
+            lg.addHandler(logging.NullHandler())
+    else:
+        lg.setLevel(logging.NOTSET)
+        lg.propagate = True
+
+
+def debug_logging_for(plan: dict) -> bool:
+    rs = str(plan.get("run_seed", "") or "")
+    try:
+        return int(rs[-2:], 16) % 8 == 3
+    except ValueError:
+        return False
+
+
 def guarded(prop_id: str, execute: Callable[[dict], "Result"], wall_s: Optional[int] = None) -> Callable[[dict], "Result"]:
     """Wrap a property's execute(): an exception that escapes from code under test at a place where the harness expected
     none (the workload is in the property's domain, every expected exception is caught where it is expected) means the
@@ -286,7 +316,11 @@ def guarded(prop_id: str, execute: Callable[[dict], "Result"], wall_s: Optional[
             old = signal.signal(signal.SIGALRM, _alarm)
             signal.alarm(int(wall_s))
         try:
-            return execute(plan)
+            set_debug_logging(debug_logging_for(plan))
+            r_ = execute(plan)
+            if DEBUG_LOG_ON:
+                r_.probes["run_with_debug_logging"] += 1
+            return r_
         except RunTimeout:
             res = Result()
             res.violate((prop_id, "no_termination", "wall_clock"),
